@@ -15,7 +15,12 @@ from . import build
 class Harness:
     def __init__(self, variant='plain', path=None, timeout=30.0, env=None):
         self.path = path or os.path.join(build.ensure(variant, quiet=True), 'vh')
+        self.variant = variant
         self.timeout = timeout
+        # the requests served by the CURRENT process: when the process dies the failure may depend on state the tree's code carried over from
+        # earlier requests (a leaked counter, a cache); the history is handed out with the death report so that it can be replayed as one unit
+        self.history = []
+        self.history_bytes = 0
         self.p = None
         self.restarts = 0
         self.env = dict(os.environ)
@@ -35,6 +40,8 @@ class Harness:
         os.close(w)
         self.rfd = r
         self.buf = b''
+        self.history = []
+        self.history_bytes = 0
 
     def close(self):
         if self.p:
@@ -66,6 +73,10 @@ class Harness:
         """line: str without newline. returns dict"""
         if self.p is None:
             self._start()
+        self.history.append(line)
+        self.history_bytes += len(line)
+        while self.history_bytes > (8 << 20) and len(self.history) > 1:
+            self.history_bytes -= len(self.history.pop(0))
         try:
             self.p.stdin.write(line.encode() + b'\n')
             self.p.stdin.flush()
@@ -90,10 +101,26 @@ class Harness:
             os.close(self.rfd)
             self.p = None
             self.restarts += 1
+            hist = dict(history=list(self.history), variant=self.variant)
             if rc < 0:
-                return {'crash': -rc, 'signame': signal.Signals(-rc).name}
-            return {'exit': rc}
+                return dict(hist, crash=-rc, signame=signal.Signals(-rc).name)
+            return dict(hist, exit=rc)
         return json.loads(r)
+
+
+def replay_history(lines, variant='plain'):
+    """send the recorded requests to a fresh harness process; returns the death report of the process, or None when it survives all of them"""
+    h = Harness(variant)
+    try:
+        for l in lines:
+            r = h.req(l)
+            if 'crash' in r or 'exit' in r:
+                return {k: v for k, v in r.items() if k != 'history'}
+            if 'timeout' in r:
+                return None
+        return None
+    finally:
+        h.close()
 
 
 def hx(b):
